@@ -1008,7 +1008,7 @@ impl XmlCData {
         self.data
             .chars()
             .skip(range.start)
-            .take(range.end - range.start)
+            .take(range.end.saturating_sub(range.start))
             .collect()
     }
 }
@@ -1221,7 +1221,7 @@ impl XmlComment {
         self.comment
             .chars()
             .skip(range.start)
-            .take(range.end - range.start)
+            .take(range.end.saturating_sub(range.start))
             .collect()
     }
 }
@@ -3591,7 +3591,7 @@ impl XmlText {
         self.text
             .chars()
             .skip(range.start)
-            .take(range.end - range.start)
+            .take(range.end.saturating_sub(range.start))
             .collect()
     }
 }
@@ -4270,11 +4270,7 @@ fn delete_char_range(value: &str, offset: usize, count: usize) -> String {
         chars.len()
     };
 
-    let e = if s + count < chars.len() {
-        s + count
-    } else {
-        chars.len()
-    };
+    let e = s.saturating_add(count).min(chars.len());
 
     chars.drain(s..e);
 
